@@ -50,8 +50,17 @@ structure Arr where
   data : List Nat
   deriving DecidableEq, Repr, Inhabited
 
-/-- the dictionary a caller passes (field name ↦ array-like) / the dictionary that is stored -/
-abbrev Rate := List (String × Arr)
+/-- what a caller passed under one field name, as the two conversions the code may apply to it see it (NumPy and
+`float` are external: their outcome on the object is an input of the model, *where* it is requested is transcribed) -/
+structure Raw where
+  /-- `np.array(x, np.float64)` -/
+  arr : Except Err Arr
+  /-- `float(x)` (as a 0-d array) -/
+  flt : Except Err Arr
+  deriving Repr, Inhabited
+
+/-- the dictionary a caller passes (field name ↦ object) / the dictionary that is stored (field name ↦ float64 array) -/
+abbrev Rate := List (String × Raw)
 abbrev Val := List (String × Arr)
 
 abbrev Path := List String
@@ -238,15 +247,19 @@ def Tables.tmplOfAdd (T : Tables) (a : AddFn) : Option Template :=
 
 /-! ## validation of rate dictionaries (hand-transcribed, in source order) -/
 
+/-- `np.array(rate[n], np.float64)` -/
 def field (r : Rate) (n : String) : Except Err Arr :=
   match alookup n r with
-  | some a => .ok a
+  | some x => x.arr
+  | none => .error .keyError
+
+/-- `float(rate[n])` -/
+def fieldF (r : Rate) (n : String) : Except Err Arr :=
+  match alookup n r with
+  | some x => x.flt
   | none => .error .keyError
 
 def ndim (a : Arr) : Nat := a.shape.length
-
-/-- `float(x)`: a scalar is accepted -/
-def asFloat (a : Arr) : Except Err Arr := if a.shape = [] then .ok a else .error .typeError
 
 def guardE (c : Bool) (e : Err) : Except Err Unit := if c then .ok () else .error e
 
@@ -285,8 +298,7 @@ def validatePecThermalCx (r : Rate) : Except Err Val := do
 
 /-- `update_wavelengths`: `float(value)` -/
 def validateWavelength (r : Rate) : Except Err Val := do
-  let w ← field r "value"
-  let w ← asFloat w
+  let w ← fieldF r "value"
   pure [("value", w)]
 
 /-- `sanitise_and_validate` of `update_beam_cx_rates` -/
@@ -299,8 +311,7 @@ def pairCheck (r : Rate) (x y : String) : Except Err (Arr × Arr) := do
   pure (a, b)
 
 def validateBeamCx (r : Rate) : Except Err Val := do
-  let qref ← field r "qref"
-  let qref ← asFloat qref
+  let qref ← fieldF r "qref"
   let (eb, qeb) ← pairCheck r "eb" "qeb"
   let (ti, qti) ← pairCheck r "ti" "qti"
   let (ni, qni) ← pairCheck r "ni" "qni"
@@ -321,10 +332,10 @@ def validateBeamRate (r : Rate) : Except Err Val := do
   guardE (ndim t == 1) .valueError
   guardE (e.shape ++ n.shape == sen.shape) .valueError
   guardE (t.shape == st.shape) .valueError
-  let eref ← (field r "eref") >>= asFloat
-  let nref ← (field r "nref") >>= asFloat
-  let tref ← (field r "tref") >>= asFloat
-  let sref ← (field r "sref") >>= asFloat
+  let eref ← fieldF r "eref"
+  let nref ← fieldF r "nref"
+  let tref ← fieldF r "tref"
+  let sref ← fieldF r "sref"
   pure [("e", e), ("n", n), ("t", t), ("sen", sen), ("st", st),
         ("eref", eref), ("nref", nref), ("tref", tref), ("sref", sref)]
 
@@ -531,6 +542,33 @@ def installSeq (T : Tables) : List (UpdFn × Bool) → List UpdInput → Option 
 
 def install (T : Tables) (i : InstallFn) (inps : List UpdInput) (root : Option Path) (fs : FS) : Res :=
   installSeq T (T.installCalls i) inps root fs
+
+def InstallFn.pyName : InstallFn → String
+  | .adf11scd => "install_adf11scd" | .adf11acd => "install_adf11acd" | .adf11ccd => "install_adf11ccd"
+  | .adf11plt => "install_adf11plt" | .adf11prb => "install_adf11prb" | .adf11prc => "install_adf11prc"
+  | .adf12 => "install_adf12" | .adf15 => "install_adf15" | .adf21 => "install_adf21"
+  | .adf22bmp => "install_adf22bmp" | .adf22bme => "install_adf22bme"
+
+/-- does `caller` hand its `repository_path` to `callee`?  (a call the translator did not see: nothing to drop) -/
+def Tables.passes (T : Tables) (caller callee : String) : Bool :=
+  match T.frontCalls.find? fun c => c.1 == caller && c.2.1 == callee with
+  | some c => c.2.2
+  | none => true
+
+/-- `install_files(configuration, repository_path=…)`: the `install_*` calls in dispatch order, each with the parsed data
+for its `repository.update_*` calls; the first exception ends the call -/
+def installFiles (T : Tables) : List (InstallFn × List UpdInput) → Option Path → FS → Res
+  | [], _, fs => (fs, none)
+  | (i, inps) :: rest, root, fs =>
+    match install T i inps (if T.passes "install_files" i.pyName then root else none) fs with
+    | (fs', none) => installFiles T rest root fs'
+    | r => r
+
+/-- `repository.populate(repository_path=…)`: `install_files`, then `update_wavelengths` -/
+def populate (T : Tables) (cfg : List (InstallFn × List UpdInput)) (wl : UpdInput) (root : Option Path) (fs : FS) : Res :=
+  match installFiles T cfg (if T.passes "populate" "install_files" then root else none) fs with
+  | (fs', none) => update T .wavelength wl (if T.passes "populate" "update_wavelengths" then root else none) fs'
+  | r => r
 
 /-! ## the read path -/
 
